@@ -477,7 +477,7 @@ def captured_value(F, body, d):
     caps = [n for n, pl in body.d.get('dbg', []) if len(pl[1]) == 2 and pl[1][0] == '*' and isinstance(pl[1][1], list) and pl[1][1][0] == 'f']
     if name not in caps or body.parent not in F.bodies:
         return d
-    k = (id(F), body.id)
+    k = (F.uid, body.id)
     if k not in _ENVS:
         par = F.bodies[body.parent]
         dd = [x for _, x in ret_descs(F, par)] + [arg_desc(F, c, i) for c in par.calls() for i in range(len(c.args))]
